@@ -21,6 +21,7 @@ mod wb;
 mod c02;
 mod c05;
 mod c01;
+mod c04;
 
 use common::*;
 use std::path::PathBuf;
@@ -59,6 +60,7 @@ fn main() {
         "c02" => c02::run(&mut out, tier, seed, replay),
         "c05" => c05::run(&mut out, tier, seed, replay),
         "c01" => c01::run(&mut out, tier, seed, replay),
+        "c04" => c04::run(&mut out, tier, seed, replay),
         _ => {
             eprintln!("unknown property {}", prop);
             std::process::exit(2);
